@@ -21,7 +21,7 @@ def preprocessWith (stages : List Stage) (r : Routine) : Except Err Routine :=
 /-- `compile_routine(routine, skip_verification=…)` for a QREF input, given the stage list -/
 def compileRoutineWith (stages : List Stage) (C : Comparator) (skipVerification : Bool) (r : Routine) :
     Except Err CRoutine := do
-  if !skipVerification then verify r
+  let _ ← (if skipVerification then pure () else verify r)
   let r ← preprocessWith stages r
   let r ← sortTree r
   compile C [] r.name r
